@@ -59,6 +59,28 @@ def _one(args):
     return out
 
 
+def _one_assumed(args):
+    qual, prefix = args
+    hit = core.cache_get("smt", f"assumed/{qual}")
+    if hit is not None:
+        import copy as _copy
+        return _rename(_copy.deepcopy(hit), prefix)
+    try:
+        from . import rtcheck
+        con = smt.CONTRACTS[qual]
+        obs = rtcheck.runtime_check(con, qual, prefix, "ASSUMED callee contract (its body is not verified by the SMT engine)")
+    except Exception:
+        obs = []
+    out = []
+    for o in obs:
+        if o.status == core.UNDECIDED:
+            continue   # the corpus does not reach it: stays an assumption
+        o.name = o.name.replace("/runtime-contract", "/assumed-contract-runtime")
+        out.append(o)
+    core.cache_put("smt", f"assumed/{qual}", _strip(out, prefix))
+    return out
+
+
 def _strip(obs, prefix):
     import copy as _copy
 
@@ -80,7 +102,9 @@ def run_functions(funcs: List[str], prefix: str, tier: str, procs: int = 16) -> 
     _load()
     timeout = 10000 if tier == "quick" else 60000
     from . import smt_stmt as _ss
-    _ss.CROSSCHECK = (tier == "thorough")   # inherited by the forked workers
+    # quick: cross-check at run time the proved contracts that rest on an ASSUMED callee contract (the modular blind spot);
+    # thorough: all proved contracts.  Inherited by the forked workers.
+    _ss.CROSSCHECK = "all" if tier == "thorough" else True
     items = [(q, prefix, timeout) for q in funcs]
     if procs > 1 and len(items) > 1:
         ctx = mp.get_context("fork")
@@ -91,6 +115,22 @@ def run_functions(funcs: List[str], prefix: str, tier: str, procs: int = 16) -> 
     res = core.Result()
     trusted_callees = set()
     paths = {}
+    # callee contracts that are ASSUMED although the function exists in the repository: evaluate them at run time (bounded)
+    assumed = set()
+    for (_q, _, _), (_obs, _fi, _st, callees, _np) in zip(items, outs):
+        for c in callees:
+            con = smt.CONTRACTS.get(c)
+            if con is not None and con.trusted and con.file is not None and con.body_slice is None and c not in funcs:
+                assumed.add(c)
+    if assumed:
+        aitems = [(q, prefix) for q in sorted(assumed)]
+        if procs > 1 and len(aitems) > 1:
+            with mp.get_context("fork").Pool(min(procs, len(aitems))) as p:
+                aouts = p.map(_one_assumed, aitems, chunksize=1)
+        else:
+            aouts = [_one_assumed(i) for i in aitems]
+        for obs in aouts:
+            res.obs += obs
     for (q, _, _), (obs, finfo, st, callees, npaths) in zip(items, outs):
         res.obs += obs
         if finfo is not None:
